@@ -346,7 +346,8 @@ SOLO_COMPOSITES = [
     L("oneof3_nonadjacent_tuple", {"oneOf": [{"type": "array", "items": [INT, INT], "minItems": 2, "maxItems": 2}, obj({"p": STR}, ["p"]),
                                              {"type": "array", "items": [INT, INT, INT], "minItems": 3, "maxItems": 3}]}, enf=True),
     # tuple positions that are DIFFERENT in-line objects (each needs a generated name of its own), also next to a fixed array of in-line objects
-    L("tuple_two_objs", {"type": "array", "items": [obj({"x": INT, "label": STR}, ["x"]), obj({"x": INT, "weight": {"type": "number"}}, ["x"])], "minItems": 2, "maxItems": 2}, enf=True, depth=3),
+    L("tuple_two_objs", {"type": "array", "items": [obj({"x": INT, "label": STR}, ["x"]), obj({"x": INT, "weight": {"type": "number"}}, ["x", "weight"])], "minItems": 2, "maxItems": 2},
+      enf=True, depth=3),   # (the later position's own member is required, so that every valid instance carries it)
     L("tuple_obj_enum_obj", {"type": "array", "items": [obj({"a": STR}), {"type": "string", "enum": ["p", "q"]}, obj({"b": INT}), {"type": "string", "enum": ["r", "s"]}],
                              "minItems": 4, "maxItems": 4}, enf=True, depth=3),
     # a tagged variant carrying ANOTHER required single-valued string property that sorts before the tag name and exists in that variant only
